@@ -12,6 +12,16 @@
 // own unmarshal dispatcher; the driver compares each decoded message with the snapshot and logs the
 // decoded kind, the index of the source message it corresponds to (by its unique end timestamp), the
 // replicate-id class and one equality bit per field group (ids, names, rows, ts).
+//
+// History before a call (WriterRepl.tla "learn" steps and cfg seeds): the same writer handles the drop
+// of a collection / a partition or a create-partition (HandleReplicateAPIEvent), the drop of a database
+// (HandleOpMessagePack), or gets dropped-object tables at construction (droppedObjs, keyed like
+// EtcdOp.GetAllDroppedObj does).  A call may then name an object class of the naming world ("m" mapped
+// collection, "s" sibling in the same database, "o" collection of an unmapped database) and an epoch
+// ("old" = rows written before everything the writer learnt, "fresh" = after it).  Model time: the step
+// with index i happens at epoch i+1 (cfg step and its seeds: 1), "old" rows carry epoch 0; an epoch e
+// is the millisecond range [epochMs(e), epochMs(e)+4e9], its event (drop stamp) lies above that range
+// and below the next epoch.
 package main
 
 import (
@@ -27,12 +37,14 @@ import (
 	"pgregory.net/rapid"
 
 	"github.com/milvus-io/milvus-proto/go-api/v2/commonpb"
+	"github.com/milvus-io/milvus-proto/go-api/v2/milvuspb"
 	"github.com/milvus-io/milvus-proto/go-api/v2/msgpb"
 	"github.com/milvus-io/milvus-proto/go-api/v2/schemapb"
 	"github.com/milvus-io/milvus/pkg/mq/msgstream"
 
 	"github.com/zilliztech/milvus-cdc/core/api"
 	"github.com/zilliztech/milvus-cdc/core/config"
+	"github.com/zilliztech/milvus-cdc/core/pb"
 	"github.com/zilliztech/milvus-cdc/core/util"
 	"github.com/zilliztech/milvus-cdc/core/writer"
 
@@ -61,6 +73,7 @@ type world struct {
 	tcoll    string
 	odb      string // a db without any mapping entry
 	ocoll    string
+	part     string // the partition named by calls / learn steps that name an object class
 	mappings map[string]string
 	chName   map[string]string // "chA"/"chB" -> concrete channel name
 }
@@ -86,7 +99,7 @@ func (w *world) mapNames(db, coll string) (string, string) {
 
 func genWorld(mapMode string) *rapid.Generator[*world] {
 	return rapid.Custom(func(t *rapid.T) *world {
-		names := rapid.SliceOfNDistinct(nameGen, 8, 8, func(s string) string { return s }).
+		names := rapid.SliceOfNDistinct(nameGen, 9, 9, func(s string) string { return s }).
 			Filter(func(ns []string) bool {
 				for _, n := range ns {
 					if n == "default" {
@@ -95,7 +108,7 @@ func genWorld(mapMode string) *rapid.Generator[*world] {
 				}
 				return true
 			}).Draw(t, "names")
-		w := &world{mapMode: mapMode, scoll: names[1], tdb: names[2], tcoll: names[3], odb: names[4], ocoll: names[5],
+		w := &world{mapMode: mapMode, scoll: names[1], tdb: names[2], tcoll: names[3], odb: names[4], ocoll: names[5], part: names[8],
 			mappings: map[string]string{}, chName: map[string]string{}}
 		switch rapid.IntRange(0, 2).Draw(t, "sdbmode") {
 		case 0:
@@ -116,6 +129,38 @@ func genWorld(mapMode string) *rapid.Generator[*world] {
 		return w
 	})
 }
+
+// objNames: source (database, collection) of an object class of the model
+func (w *world) objNames(obj string) (string, string) {
+	switch obj {
+	case "m":
+		return w.sdb, w.scoll
+	case "s":
+		return w.sdb, w.ocoll
+	case "o":
+		return w.odb, w.ocoll
+	}
+	machineryFailure("unknown object class " + obj)
+	return "", ""
+}
+
+// model time
+const (
+	epochBaseMs = uint64(1_600_000_000_000)
+	epochStepMs = uint64(10_000_000_000)
+	epochSpanMs = uint64(4_000_000_000)
+	maxEpoch    = 28
+)
+
+func epochMs(e int) uint64 {
+	if e < 0 || e > maxEpoch {
+		machineryFailure(fmt.Sprintf("epoch %d outside the driver's time range", e))
+	}
+	return epochBaseMs + uint64(e)*epochStepMs
+}
+
+// eventTs: the stamp of what happens AT epoch e (a drop, a seed): above every row of epoch e, below every row of epoch e+1
+func eventTs(e int) uint64 { return (epochMs(e) + epochSpanMs + 1_000_000_000) << 18 }
 
 // ---------------------------------------------------------------- messages
 
@@ -167,10 +212,19 @@ type srcMsg struct {
 	end  uint64
 }
 
-func genPack(w *world, ch string, kinds []string) *rapid.Generator[*packContent] {
+// genPack: obj = "any" draws the object class per message, ep = "any" draws the time freely; otherwise every message of
+// the pack names (database, collection, partition) of the object class and all timestamps lie inside the epoch's range.
+func genPack(w *world, ch string, kinds []string, obj, ep string, epoch int) *rapid.Generator[*packContent] {
 	return rapid.Custom(func(t *rapid.T) *packContent {
 		pc := &packContent{}
-		ms := rapid.Uint64Range(1_600_000_000_000, 1_900_000_000_000).Draw(t, "ms")
+		lo, hi := uint64(1_600_000_000_000), uint64(1_900_000_000_000)
+		switch ep {
+		case "old":
+			lo, hi = epochMs(0), epochMs(0)+epochSpanMs
+		case "fresh":
+			lo, hi = epochMs(epoch), epochMs(epoch)+epochSpanMs
+		}
+		ms := rapid.Uint64Range(lo, hi).Draw(t, "ms")
 		t0 := ms<<18 | rapid.Uint64Range(0, 1<<17).Draw(t, "logical")
 		vch := w.chName[ch] + "_" + fmt.Sprint(rapid.Int64Range(1, 1<<40).Draw(t, "vchcoll")) + "v" + fmt.Sprint(rapid.IntRange(0, 3).Draw(t, "vchidx"))
 		for i, k := range kinds {
@@ -183,6 +237,13 @@ func genPack(w *world, ch string, kinds []string) *rapid.Generator[*packContent]
 				coll = w.ocoll // same db, other collection: only a whole-db entry applies
 			}
 			part := anyText(t, "part")
+			if obj != "any" {
+				db, coll = w.objNames(obj)
+				part = w.part
+				if canonDB(db) == util.DefaultDbName && rapid.Bool().Draw(t, "dbspell") {
+					db = map[string]string{"": util.DefaultDbName, util.DefaultDbName: ""}[db] // the other spelling of the default database
+				}
+			}
 			b := &commonpb.MsgBase{MsgID: rapid.Int64Range(1, 1<<50).Draw(t, "msgid"), Timestamp: beg,
 				SourceID: rapid.Int64Range(1, 1<<20).Draw(t, "srcid"), TargetID: rapid.Int64Range(0, 1<<20).Draw(t, "tgtid")}
 			if rapid.IntRange(0, 3).Draw(t, "upstream") == 0 {
@@ -532,6 +593,8 @@ func chLabel(w *world, name string) string {
 type running struct {
 	c    map[string]interface{}
 	ch   string
+	obj  string
+	ep   string
 	pc   *packContent
 	pack *msgstream.MsgPack
 	// snapshots of the pack-level fields
@@ -543,14 +606,30 @@ type running struct {
 	early      bool // returned while its own downstream call was still held inside the fake
 }
 
+// plans written before object classes / epochs existed do not carry the fields
+func callObj(c map[string]interface{}) string {
+	if v, ok := c["obj"].(string); ok && v != "" {
+		return v
+	}
+	return "any"
+}
+
+func callEp(c map[string]interface{}) string {
+	if v, ok := c["ep"].(string); ok && v != "" {
+		return v
+	}
+	return "any"
+}
+
 func prepare(p *hx.Plan, w *world, idx, k int, c map[string]interface{}) *running {
 	b, _ := json.Marshal(c)
 	h := fnv.New64a()
 	fmt.Fprintf(h, "%d|%v|%d|%d|", hx.Seed(), p.Steps[idx]["salt"], idx, k)
 	h.Write(b)
 	ch := hx.S(c, "ch")
-	pc := genPack(w, ch, hx.SL(c, "pack")).Example(int(h.Sum64() & 0x3fffffffffffffff))
-	r := &running{c: c, ch: ch, pc: pc, done: make(chan struct{})}
+	obj, ep := callObj(c), callEp(c)
+	pc := genPack(w, ch, hx.SL(c, "pack"), obj, ep, idx+1).Example(int(h.Sum64() & 0x3fffffffffffffff))
+	r := &running{c: c, ch: ch, obj: obj, ep: ep, pc: pc, done: make(chan struct{})}
 	r.pack = &msgstream.MsgPack{BeginTs: pc.begin, EndTs: pc.end, StartPositions: pc.start, EndPositions: pc.endp}
 	for _, m := range pc.msgs {
 		r.pack.Msgs = append(r.pack.Msgs, m.msg)
@@ -595,7 +674,7 @@ func (r *running) result(w *world, downs []*wfake2.Call) hx.Event {
 		tgt = "fake"
 	}
 	return hx.Event{
-		"c": hx.Event{"ch": r.ch, "pack": hx.SL(r.c, "pack"), "fail": hx.B(r.c, "fail")},
+		"c": hx.Event{"ch": r.ch, "pack": hx.SL(r.c, "pack"), "fail": hx.B(r.c, "fail"), "obj": r.obj, "ep": r.ep},
 		"o": hx.Event{"down": down, "ret": hx.Event{"err": r.err != nil, "ckpt": ckpt, "tgt": tgt, "early": r.early}},
 	}
 }
@@ -625,11 +704,43 @@ func runPlan(p *hx.Plan) []hx.Event {
 	if rid {
 		cfg.ReplicateID = replicateIDValue
 	}
-	wr := writer.NewChannelWriter(fake, &wfake2.Meta{}, cfg, map[string]map[string]uint64{}, "milvus")
+	// dropped-object tables of the start-up snapshot (keys as EtcdOp.GetAllDroppedObj builds them), stamped at epoch 1
+	dropped := map[string]map[string]uint64{}
+	seedEvs := []hx.Event{}
+	if raw, ok := st0["seeds"].([]interface{}); ok {
+		for _, x := range raw {
+			sd, ok := x.(map[string]interface{})
+			if !ok {
+				machineryFailure("malformed seed")
+			}
+			lvl, obj := hx.S(sd, "lvl"), hx.S(sd, "obj")
+			db, coll := w.objNames(obj)
+			table, key := "", ""
+			switch lvl {
+			case "db":
+				table = util.DroppedDatabaseKey
+				_, key = util.GetDBInfoKeys(db)
+			case "coll":
+				table = util.DroppedCollectionKey
+				_, key = util.GetCollectionInfoKeys(coll, db)
+			case "part":
+				table = util.DroppedPartitionKey
+				_, key = util.GetPartitionInfoKeys(w.part, coll, db)
+			default:
+				machineryFailure("unknown seed level " + lvl)
+			}
+			if dropped[table] == nil {
+				dropped[table] = map[string]uint64{}
+			}
+			dropped[table][key] = eventTs(1)
+			seedEvs = append(seedEvs, hx.Event{"lvl": lvl, "obj": obj})
+		}
+	}
+	wr := writer.NewChannelWriter(fake, &wfake2.Meta{}, cfg, dropped, "milvus")
 	if len(w.mappings) > 0 {
 		wr.(*writer.ChannelWriter).UpdateNameMappings(w.mappings)
 	}
-	evs = append(evs, hx.Event{"op": "cfg", "rid": rid, "map": mapMode, "calls": []hx.Event{}})
+	evs = append(evs, hx.Event{"op": "cfg", "rid": rid, "map": mapMode, "seeds": seedEvs, "calls": []hx.Event{}})
 
 	tgtByCh := map[string][]byte{}
 	fake.TargetPos = func(channel string) []byte { return tgtByCh[channel] }
@@ -637,6 +748,10 @@ func runPlan(p *hx.Plan) []hx.Event {
 	for idx := 1; idx < len(p.Steps); idx++ {
 		st := p.Steps[idx]
 		op := hx.S(st, "op")
+		if op == "learn" {
+			evs = append(evs, learn(p, w, wr, idx, st))
+			continue
+		}
 		cs := hx.ML(st, "calls")
 		var rs []*running
 		for k, c := range cs {
@@ -667,19 +782,32 @@ func runPlan(p *hx.Plan) []hx.Event {
 					close(r.done)
 				}()
 			}
-			// both downstream calls inside the fake at once = the calls really overlap
-			got := 0
+			// both downstream calls inside the fake at once = the calls really overlap.  A caller that returns without ever
+			// reaching the downstream (observed, judged by the contract) is not waited for.
+			finished := make(chan string, 4)
+			for _, r := range rs {
+				r := r
+				go func() {
+					<-r.done
+					finished <- w.chName[r.ch]
+				}()
+			}
+			inFake := map[string]bool{}
+			accounted := map[string]bool{}
 			timeout := time.After(gateTimeout)
 		wait:
-			for got < len(rs) {
+			for len(accounted) < len(rs) {
 				select {
-				case <-arrived:
-					got++
+				case chn := <-arrived:
+					inFake[chn] = true
+					accounted[chn] = true
+				case chn := <-finished:
+					accounted[chn] = true
 				case <-timeout:
 					break wait
 				}
 			}
-			overlap = got == len(rs)
+			overlap = len(inFake) == len(rs)
 			first := hx.I(st, "first") - 1
 			if first < 0 || first >= len(rs) {
 				first = 0
@@ -689,8 +817,8 @@ func runPlan(p *hx.Plan) []hx.Event {
 				close(release[w.chName[rs[i].ch]])
 				other := rs[order[len(order)-1-n]]
 				otherDone := other.done
-				if n > 0 {
-					otherDone = nil // already released
+				if n > 0 || !inFake[w.chName[other.ch]] {
+					otherDone = nil // already released / has no downstream call held inside the fake
 				}
 				select {
 				case <-rs[i].done:
@@ -747,6 +875,54 @@ func runPlan(p *hx.Plan) []hx.Event {
 		evs = append(evs, ev)
 	}
 	return evs
+}
+
+// learn: the writer handles, at the step's epoch, an api event / op message about an object class; downstream succeeds.
+func learn(p *hx.Plan, w *world, wr api.Writer, idx int, st map[string]interface{}) hx.Event {
+	kind, obj := hx.S(st, "kind"), hx.S(st, "obj")
+	db, coll := w.objNames(obj)
+	h := fnv.New64a()
+	steps, _ := json.Marshal(p.Steps)
+	fmt.Fprintf(h, "%d|learn|%d|", hx.Seed(), idx)
+	h.Write(steps)
+	if canonDB(db) == util.DefaultDbName && h.Sum64()&1 == 1 {
+		db = map[string]string{"": util.DefaultDbName, util.DefaultDbName: ""}[db] // either spelling of the default database
+	}
+	ts := eventTs(idx + 1)
+	ctx := context.Background()
+	apiEvent := func(et api.ReplicateAPIEventType, withPart bool) *api.ReplicateAPIEvent {
+		e := &api.ReplicateAPIEvent{
+			EventType:      et,
+			CollectionInfo: &pb.CollectionInfo{ID: 1000 + int64(idx), Schema: &schemapb.CollectionSchema{Name: coll}},
+			ReplicateInfo:  &commonpb.ReplicateInfo{IsReplicate: true, MsgTimestamp: ts},
+			ReplicateParam: api.ReplicateParam{Database: db},
+			TaskID:         "verif-task",
+			MsgID:          fmt.Sprintf("verif-msg-%d", idx),
+		}
+		if withPart {
+			e.PartitionInfo = &pb.PartitionInfo{PartitionID: 2000 + int64(idx), CollectionId: 1000 + int64(idx), PartitionName: w.part}
+		}
+		return e
+	}
+	var err error
+	switch kind {
+	case "dropcoll":
+		err = wr.HandleReplicateAPIEvent(ctx, apiEvent(api.ReplicateDropCollection, false))
+	case "droppart":
+		err = wr.HandleReplicateAPIEvent(ctx, apiEvent(api.ReplicateDropPartition, true))
+	case "createpart":
+		err = wr.HandleReplicateAPIEvent(ctx, apiEvent(api.ReplicateCreatePartition, true))
+	case "dropdb":
+		pos := &msgpb.MsgPosition{ChannelName: "by-dev-replicate-msg", MsgID: []byte(fmt.Sprintf("op-%d", idx)), Timestamp: ts}
+		_, err = wr.HandleOpMessagePack(ctx, &msgstream.MsgPack{BeginTs: ts, EndTs: ts,
+			StartPositions: []*msgpb.MsgPosition{pos}, EndPositions: []*msgpb.MsgPosition{pos},
+			Msgs: []msgstream.TsMsg{&msgstream.DropDatabaseMsg{
+				BaseMsg:             msgstream.BaseMsg{BeginTimestamp: ts, EndTimestamp: ts, HashValues: []uint32{0}},
+				DropDatabaseRequest: &milvuspb.DropDatabaseRequest{Base: &commonpb.MsgBase{MsgType: commonpb.MsgType_DropDatabase, SourceID: 1, Timestamp: ts}, DbName: db}}}})
+	default:
+		machineryFailure("unknown learn kind " + kind)
+	}
+	return hx.Event{"op": "learn", "kind": kind, "obj": obj, "ok": err == nil, "calls": []hx.Event{}}
 }
 
 func main() {
